@@ -240,6 +240,8 @@ lemma("rinv_def", [x], z3.Implies(x != 0, z3.And(rm(x, rinv(x)) == 1, rinv(x) !=
 lemma("rinv_rinv", [x], z3.Implies(x != 0, rinv(rinv(x)) == x), [rinv(rinv(x))], "reciprocal of reciprocal")
 lemma("smul_one", [a], smul(1, 0, a) == a, [smul(1, 0, a)], ML + "one_smul")
 lemma("smul_smul", [x, y, u, v, a], smul(x, y, smul(u, v, a)) == smul(*cmul(x, y, u, v), a), [smul(x, y, smul(u, v, a))], ML + "smul_smul")
+lemma("smul_madd", [x, y, a, b], smul(x, y, madd(a, b)) == madd(smul(x, y, a), smul(x, y, b)), [smul(x, y, madd(a, b))], ML + "smul_add")
+lemma("smul_zero", [a], smul(0, 0, a) == zeros(rows(a), cols(a)), [smul(0, 0, a)], ML + "zero_smul")
 lemma("smul_mmul_l", [x, y, a, b], mmul(smul(x, y, a), b) == smul(x, y, mmul(a, b)), [mmul(smul(x, y, a), b)], ML + "Matrix.smul_mul")
 lemma("smul_mmul_r", [x, y, a, b], mmul(a, smul(x, y, b)) == smul(x, y, mmul(a, b)), [mmul(a, smul(x, y, b))], ML + "Matrix.mul_smul")
 
@@ -455,7 +457,7 @@ lemma("fnm_bd", [f, a, b], z3.Implies(z3.And(sq(a), sq(b)), fnm(f, bd(a, b)) == 
 lemma("fnm_rep", [f, a, n], z3.Implies(sq(a), fnm(f, rep(a, n)) == rep(fnm(f, a), n)), [fnm(f, rep(a, n))], ML + "Matrix.exp_blockDiagonal")
 lemma("fnm_tr", [f, a], fnm(f, tr(a)) == tr(fnm(f, a)), [fnm(f, tr(a))], ML + "Matrix.exp_transpose (any primary matrix function)")
 lemma("fnm_cjtr", [f, a], z3.Implies(f_conjsym(f), fnm(f, cj(tr(a))) == cj(tr(fnm(f, a)))), [fnm(f, cj(tr(a)))], ML + "Matrix.exp_conjTranspose (needs f(conj z) = conj f(z))")
-GROUND_FACTS = [f_conjsym(f_exp), f_conjsym(f_log)]   # exp/log commute with conjugation (principal branch, off the cut)
+GROUND_FACTS = [f_conjsym(f_exp), f_conjsym(f_log), cabs(0, 0) == 0]   # exp/log commute with conjugation (principal branch, off the cut)
 lemma("conjsym_pow", [x], f_conjsym(f_pow(x)), [f_pow(x)], "real powers commute with conjugation (principal branch, off the cut)")
 lemma("fnm_sim", [f, a, b], z3.Implies(z3.And(invok(a), rows(b) == rows(a)),
                                       fnm(f, mmul(a, mmul(diagm(b), minv(a)))) == mmul(a, mmul(diagm(vap(f, b)), minv(a)))),
